@@ -392,6 +392,10 @@ REGISTRY["C11"]["teq"].append({"engine": "sweepsched", "quick": {"n": 25, "seedo
                                 "oracle": True, "mismatch_is_failure": True, "timeout": 3400,
                                 "nontrivial": lambda case, res: " X" in case and "removed=0" not in res, "distinct_key": lambda case, res: case,
                                 "what": "T-sched for Model.Sweep (hook H9): the real sweeper thread is parked right after its sample and again between finding a sampled record expired and its guarded removal, while the controlling thread renews (insert with/without TTL, update_ttl, persist), deletes, reads or adds expired-on-arrival keys, mostly on the very key the sweeper is about to handle; then the sweeper is released. The executed event sequence is replayed by the extracted Model.Sweep.sstep: every client result, the final table (ordered and hashed index, value, expiry class), len() and the number of removals by expiry must agree. Oracle independent of the model: what this thread's own calls imply for every read (an unexpired or permanent key is found with its latest value, an expired or deleted one is not)"})
+REGISTRY["C14"]["teq"].append({"engine": "sweepsched", "quick": {"n": 25, "seedoff": 1411}, "thorough": {"n": 600, "seedoff": 1411},
+                                "oracle": True, "mismatch_is_failure": True, "timeout": 3400,
+                                "nontrivial": lambda case, res: " X" in case and "removed=0" not in res, "distinct_key": lambda case, res: case,
+                                "what": "the two indexes under the sweeper (hook H9, T-sched for Model.Sweep as under C11): the real sweeper thread is parked after its sample and before its guarded removal while the controlling thread renews, replaces, deletes or re-creates the very key it is about to handle; at quiescence the ordered and the hashed index must hold the same keys and a range query over everything must return exactly the keys a read finds"})
 REGISTRY["C16"]["teq"].append({"engine": "sweep", "quick": {"n": 16, "cache": 1, "seedoff": 16}, "thorough": {"n": 64, "cache": 1, "seedoff": 16},
                                 "oracle": True, "mismatch_is_failure": False, "timeout": 3400,
                                 "nontrivial": lambda case, res: "reads=0" not in case and "persistent=1" in case, "distinct_key": lambda case, res: case,
